@@ -170,6 +170,23 @@ def ownerId (st : St) : Nat :=
   | f :: _ => f.id
   | [] => 0
 
+/-- `with self.state[_FunctionOrClass] as fn: fn.node = node` … -/
+def pushFn (st : St) (f : FnCtx) : St := { st with fns := f :: st.fns }
+/-- … and leaving that `with` block. -/
+def popFn (st : St) : St := { st with fns := st.fns.tail }
+def setAnnoOnly (st : St) (b : Bool) : St := { st with annoOnly := b }
+def setInAug (st : St) (b : Bool) : St := { st with inAug := b }
+def setInAnno (st : St) (b : Bool) : St := { st with inAnno := b }
+/-- `with self.state[_Comprehension]` … -/
+def pushComp (st : St) : St := { st with comps := [] :: st.comps }
+def popComp (st : St) : St := { st with comps := st.comps.tail }
+/-- `anno.setanno(node, key, self.scope)` for the still-open current scope. -/
+def recordTop (st : St) (node : Nat) (key : AnnoKey) : St :=
+  match st.stack with
+  | s :: _ => { st with annos := (node, key, s) :: st.annos }
+  | [] => st
+def setErr (st : St) : St := { st with err := true }
+
 end St
 
 /-- Is `qn` hidden by a comprehension target (`_track_symbol`'s loop over `self.state[_Comprehension]`)? -/
@@ -233,14 +250,14 @@ def visitE (e : Expr) (st : St) : St :=
   | .lambda i args body =>
       match args with
       | .arguments ai po ar va ko kd kw df =>
-          let st := { st with fns := .lam i :: st.fns }
+          let st := st.pushFn (.lam i)
           -- the Lambda node's own scope: default values; parameter pass with _track_annotations_only
           let st := st.enter false
           let st := visitEs kd st
           let st := visitEs df st
-          let st := { st with annoOnly := true }
+          let st := st.setAnnoOnly true
           let st := visitEs kw (visitEs ko (visitEs va (visitEs ar (visitEs po st))))
-          let st := { st with annoOnly := false }
+          let st := st.setAnnoOnly false
           let st := st.exitWith [(i, .scope)]
           -- the function's own (isolated) scope, the arguments scope, the body scope
           let st := st.enter true
@@ -249,26 +266,23 @@ def visitE (e : Expr) (st : St) : St :=
           let st := st.exitWith [(ai, .scope)]
           let st := st.enter false
           let st := visitE body st
-          let st := if st.hasAnno body.id .scope then st else
-            match st.stack with
-            | s :: _ => { st with annos := (body.id, .scope, s) :: st.annos }
-            | [] => st
+          let st := if st.hasAnno body.id .scope then st else st.recordTop body.id .scope
           let st := st.exitWith [(i, .bodyScope)]
           let lam := st.stack.head?
           let st := st.exitWith [(i, .argsAndBodyScope)]
           let st := match lam with
             | some ls => st.modTop fun s => { s with read := s.read.union (ls.read.diff ls.bound) }
             | none => st
-          { st with fns := st.fns.tail }
+          st.popFn
       | _ => st
   | .seq _ _ es _ => visitEs es st
   | .starred _ v _ => visitE v st
   | .namedexpr _ t v => visitE v (visitE t st)
   | .comp _ _ elts gens =>
-      let st := { st with comps := [] :: st.comps }
+      let st := st.pushComp
       let st := visitEs gens st
       let st := visitEs elts st
-      { st with comps := st.comps.tail }
+      st.popComp
   | .comprehension _ t it ifs _ =>
       let st := visitE it st
       let st := visitE t st
@@ -327,6 +341,10 @@ def declNonlocals (names : List String) (st : St) : St :=
     `self.scope.copy_from(before_parent)`, then `_process_block_node`. -/
 def St.restore (st : St) (before : List Scope) : St := { st with stack := copyFromStack st.stack before }
 
+/-- The end of `_process_parallel_blocks`: `self.scope.merge_from(after_child)` for both children. -/
+def St.mergeAfter (st : St) (after1 after2 : List Scope) : St :=
+  { st with stack := mergeFromStack (mergeFromStack st.stack after1) after2 }
+
 mutual
 /-- `ActivityAnalyzer.visit` on a statement (or `ExceptHandler`). -/
 def visitS (s : Stmt) (st : St) : St :=
@@ -338,18 +356,18 @@ def visitS (s : Stmt) (st : St) : St :=
       else
       match args with
       | .arguments ai po ar va ko kd kw df =>
-          let st := { st with fns := .fn i name :: st.fns }
+          let st := st.pushFn (.fn i name)
           let st := st.enter false
           let st := visitEs decos st
           let st := match returns with
             | [] => st
-            | _ => { visitEs returns { st with inAnno := true } with inAnno := false }
+            | _ => (visitEs returns (st.setInAnno true)).setInAnno false
           -- _visit_arg_annotations
           let st := visitEs kd st
           let st := visitEs df st
-          let st := { st with annoOnly := true }
+          let st := st.setAnnoOnly true
           let st := visitEs kw (visitEs ko (visitEs va (visitEs ar (visitEs po st))))
-          let st := { st with annoOnly := false }
+          let st := st.setAnnoOnly false
           let st := (st.addModified (.sym name)).addBound (.sym name)
           let st := st.exitWith [(i, .scope)]
           let st := st.enter true (some name)
@@ -360,10 +378,10 @@ def visitS (s : Stmt) (st : St) : St :=
           let st := visitSs body st
           let st := st.exitWith [(i, .bodyScope)]
           let st := st.exitWith [(i, .argsAndBodyScope)]
-          { st with fns := st.fns.tail }
+          st.popFn
       | _ => st
   | .classDef i name bases kws body decos =>
-      let st := { st with fns := .cls i :: st.fns }
+      let st := st.pushFn (.cls i)
       let st := st.enter false
       let st := visitEs decos st
       let st := (st.addModified (.sym name)).addBound (.sym name)
@@ -377,20 +395,20 @@ def visitS (s : Stmt) (st : St) : St :=
       let st := visitSs body st
       let st := visitEs decos st
       let st := st.exitWith []
-      { st with fns := st.fns.tail }
+      st.popFn
   | .ret i v => ((st.enter false) |> visitEs v).exitWith [(i, .scope)]
   | .delete i ts => ((st.enter false) |> visitEs ts).exitWith [(i, .scope)]
   | .assign i ts v => ((st.enter false) |> visitEs ts |> visitE v).exitWith [(i, .scope)]
   | .augAssign i t _ v =>
       let st := st.enter false
-      let st := { visitE t { st with inAug := true } with inAug := false }
+      let st := (visitE t (st.setInAug true)).setInAug false
       let st := visitE v st
       st.exitWith [(i, .scope)]
   | .annAssign i t an v _ =>
       let st := st.enter false
       let st := visitE t st
       let st := visitEs v st
-      let st := { visitE an { st with inAnno := true } with inAnno := false }
+      let st := (visitE an (st.setInAnno true)).setInAnno false
       st.exitWith [(i, .scope)]
   | .for_ i t it body orelse extra isAsync =>
       if isAsync then visitSs orelse (visitSs body (visitE it (visitE t st))) else
@@ -409,7 +427,7 @@ def visitS (s : Stmt) (st : St) : St :=
       let after1 := st.stack
       let st := ((st.restore before).enter false |> visitSs orelse).exitWith [(i, .orelseScope)]
       let after2 := st.stack
-      { st with stack := mergeFromStack (mergeFromStack st.stack after1) after2 }
+      st.mergeAfter after1 after2
   | .while_ i test body orelse =>
       let st := st.enter false
       let st := visitE test st
@@ -419,7 +437,7 @@ def visitS (s : Stmt) (st : St) : St :=
       let after1 := st.stack
       let st := ((st.restore before).enter false |> visitSs orelse).exitWith [(i, .orelseScope)]
       let after2 := st.stack
-      { st with stack := mergeFromStack (mergeFromStack st.stack after1) after2 }
+      st.mergeAfter after1 after2
   | .if_ i test body orelse =>
       let st := st.enter false
       let st := visitE test st
@@ -429,7 +447,7 @@ def visitS (s : Stmt) (st : St) : St :=
       let after1 := st.stack
       let st := ((st.restore before).enter false |> visitSs orelse).exitWith [(i, .orelseScope)]
       let after2 := st.stack
-      { st with stack := mergeFromStack (mergeFromStack st.stack after1) after2 }
+      st.mergeAfter after1 after2
   | .with_ i items body isAsync =>
       if isAsync then visitSs body (visitEs items st) else
       ((st.enter false) |> visitEs items |> visitSs body).exitWith [(i, .bodyScope)]
@@ -437,7 +455,7 @@ def visitS (s : Stmt) (st : St) : St :=
   | .try_ _ b h o f => visitSs f (visitSs o (visitSs h (visitSs b st)))
   | .handler _ ty name body =>
       let st := st.enter false
-      let st := if name.isEmpty then st else { st with err := true }
+      let st := if name.isEmpty then st else st.setErr
       let st := visitEs ty st
       let st := visitSs body st
       st.exitWith []
